@@ -246,3 +246,38 @@ def alpha(fn, prefix="L"):
         if isinstance(n, ast.Name) and n.id in ren:
             n.id = ren[n.id]
     return fn2
+
+
+def case_returns(fn, subject: str):
+    """[(key expr, returned expr)] for every `if <subject> == K: ... return V` of fn, whatever the chain is written as
+    (elif chain, guard clauses one after the other, nested in else branches), in source order; a dict display indexed by the
+    subject (`{K: V, ...}[subject]` or `.get(subject)`) counts as well"""
+    out = []
+    for n in ast.walk(fn):
+        if isinstance(n, ast.If) and isinstance(n.test, ast.Compare) and len(n.test.ops) == 1 and isinstance(n.test.ops[0], ast.Eq):
+            l, r = n.test.left, n.test.comparators[0]
+            key = r if norm(l) == subject else l if norm(r) == subject else None
+            if key is None:
+                continue
+            rets = [s for s in n.body if isinstance(s, ast.Return)]
+            if rets:
+                out.append((n.lineno, key, rets[0].value))
+        elif isinstance(n, ast.Subscript) and isinstance(n.value, ast.Dict) and norm(n.slice) == subject:
+            out.extend((n.lineno, k, v) for k, v in zip(n.value.keys, n.value.values) if k is not None)
+        elif isinstance(n, ast.Call) and isinstance(n.func, ast.Attribute) and n.func.attr == "get" and isinstance(n.func.value, ast.Dict) and n.args and norm(n.args[0]) == subject:
+            out.extend((n.lineno, k, v) for k, v in zip(n.func.value.keys, n.func.value.values) if k is not None)
+    out.sort(key=lambda t: t[0])
+    return [(k, v) for _, k, v in out]
+
+
+def case_bodies(fn, subject: str):
+    """[(key expr, body statements)] for every `if <subject> == K:` of fn in source order (any chain style)"""
+    out = []
+    for n in ast.walk(fn):
+        if isinstance(n, ast.If) and isinstance(n.test, ast.Compare) and len(n.test.ops) == 1 and isinstance(n.test.ops[0], ast.Eq):
+            l, r = n.test.left, n.test.comparators[0]
+            key = r if norm(l) == subject else l if norm(r) == subject else None
+            if key is not None:
+                out.append((n.lineno, key, n.body))
+    out.sort(key=lambda t: t[0])
+    return [(k, b) for _, k, b in out]
